@@ -67,6 +67,18 @@ pub fn check_leftover_ifs(
 {
     for node in &ast.nodes
     {
+        // Includes are only resolved at the top level of a file,
+        // so one that was spliced in from an `#if` arm would be
+        // silently dropped
+        if let asm::AstAny::DirectiveInclude(node) = node
+        {
+            report.error_span(
+                "`#include` is not supported inside `#if` blocks",
+                node.header_span);
+
+            return Err(());
+        }
+
         let asm::AstAny::DirectiveIf(node) = node
             else { continue };
 
